@@ -686,8 +686,62 @@ pub fn check_c12(seed: u64, i: usize) -> DefReport {
         def.push(vmon::spec::Pat::regex(&format!("#(?&uni{i})"), 0).prio(70 + rng.below(9)));
         def.normalize();
     }
+    let mut injected = false;
+    if i % 6 == 5 {
+        // a pattern that can match invalid UTF-8, in every position a pattern can be written in
+        let cands: &[&[u8]] = &[b"\xC3", b"\xFF", b"a\x80", b"(?-u:.)", b"(?-u:[^a])", b"(?-u:[\\x80-\\xBF])+", b"\xE2\x82", b"(?s-u:.)", b"(?-u:\\xC3)", b"[\x80-\xBF]", b"(?-u:\\W)"];
+        let c: &[u8] = *rng.pick(cands);
+        let lit = if std::str::from_utf8(c).is_ok() && rng.chance(1, 2) { vmon::spec::Lit::s(std::str::from_utf8(c).unwrap()) } else { vmon::spec::Lit::b(c) };
+        match rng.below(5) {
+            0 | 1 => {
+                let mut p = vmon::spec::Pat::new(PatKind::Skip, lit, 0);
+                match rng.below(3) {
+                    0 => p.priority = Some(rng.below(60)),
+                    1 => p.allow_greedy = Some(true),
+                    _ => {}
+                }
+                def.push(p);
+            }
+            2 => {
+                def.push(vmon::spec::Pat::new(PatKind::Regex, lit, 0).prio(60 + rng.below(30)));
+            }
+            3 => {
+                def.push(vmon::spec::Pat::new(PatKind::Token, lit, 0).prio(60 + rng.below(30)));
+            }
+            _ => {
+                def.subpats.insert(0, (format!("nb{i}"), lit));
+                if rng.chance(1, 2) {
+                    def.push(vmon::spec::Pat::regex(&format!("q(?&nb{i})"), 0).prio(77));
+                }
+            }
+        }
+        def.normalize();
+        injected = true;
+    }
     let a = analyze::run_generate(&def);
     let mut rep = base_report(&def, &a);
+    if rep.accepted {
+        // accepted in str mode => no pattern and no subpattern may match a byte string that is not valid UTF-8
+        if let Ok(reference) = analyze::build_reference(&def) {
+            for (leaf, c) in reference.comps.iter().enumerate() {
+                if let Some(w) = non_utf8_match(c) {
+                    rep.violations.push(violation("C12", "non-utf8-pattern-accepted-in-str-mode",
+                        &format!("str-mode definition accepted although leaf {leaf} ({}) matches a byte string that is not valid UTF-8", c.describe), &def, Some(&w), None));
+                }
+            }
+        }
+        if let Ok(subs) = refa::resolve_subpatterns(&def) {
+            for (name, text) in subs {
+                if let Ok(c) = Comp::from_regex(&text, true, false) {
+                    if let Some(w) = non_utf8_match(&c) {
+                        rep.violations.push(violation("C12", "non-utf8-subpattern-accepted-in-str-mode",
+                            &format!("str-mode definition accepted although subpattern {name} = {text:?} matches a byte string that is not valid UTF-8"), &def, Some(&w), None));
+                    }
+                }
+            }
+        }
+    }
+    let _ = injected;
     let mut twin = def.clone();
     twin.utf8 = false;
     let b = analyze::run_generate(&twin);
